@@ -484,6 +484,11 @@ def cases(tier):
         yield {"kind": "A", "thunk": n}
     for f in names:
         yield {"kind": "B-row", "f": f}
+    if tier == "quick":
+        sub = [n for n in names if not T[n]["plot"]][::6]
+        for f in sub:
+            for g in sub:
+                yield {"kind": "B4-row", "f": f, "g": g, "subset": True}
     if tier == "thorough":
         nonplot = [n for n in names if not T[n]["plot"]]
         for f in nonplot:
@@ -605,6 +610,8 @@ def check_B4(case, ctx):
     T = thunks()
     f, g = case["f"], case["g"]
     nonplot = [n for n in T if not T[n]["plot"]]
+    if case.get("subset"):
+        nonplot = nonplot[::6]
     for h in nonplot:
         P = make_pool("f64")
         before = {k: snapshot(P[k]) for k in P}
